@@ -4,7 +4,7 @@ import numpy as np
 import single
 
 import proto
-from common import gen_data, rel, dyadic
+from common import gen_data, as_input, rel, dyadic
 
 TRUSTED_BASE = [
     "scipy.signal.correlate(x, y, 'full') is modelled by its defining sum (parameter of the model)",
@@ -13,10 +13,28 @@ TRUSTED_BASE = [
     "Gaussian rationals and is compared with the float result at rtol 1e-12",
 ]
 PARTIAL = ["coeff normalisation is specified (and modelled) for the autocorrelation only; cross-correlation "
-           "with norm='coeff' is outside the statement"]
-ASSUMPTIONS = ["xcorr requires equal lengths (the code asserts it)"]
-RULE = ("random real/complex data (dyadic rationals, integers, constants), equal and unequal lengths 1..24, "
-        "maxlags in [0, N-1] and None, four norms; corrmtx: 5 methods x orders; non-trivial = N >= 2")
+           "with norm='coeff' is outside the statement",
+           "records longer than 600 samples crossed with the norms / lag ranges are checked against the definition "
+           "(oracle) only: the exact-rational model needs seconds per record there",
+           "error paths are outside the statement; a few rejected calls (CORRELATION maxlags >= N, xcorr unequal lengths or "
+           "maxlags > N, corrmtx unknown method) are compared with the model's error kind only.  xcorr(maxlags=N) passes the "
+           "code's own assertion and then raises IndexError: not generated"]
+ASSUMPTIONS = ["xcorr requires equal lengths (the code asserts it)",
+               "norm='coeff' requires a record of non-zero energy (rms(x) = 0 gives 0/0 = nan: degenerate, not generated); "
+               "all-zero records are generated for 'biased', 'unbiased' and None, where the estimate is exactly zero",
+               "inputs are 1-D numpy arrays (float64, complex128, float32, complex64, integer dtypes of any width) or "
+               "Python lists of numbers"]
+RULE = ("random real/complex data (dyadic rationals, integers, constants), equal and unequal lengths 1..16 (quick) / 1..40 "
+        "(thorough), maxlags in [0, N-1] and None, four norms, data class / norm / maxlags / auto-cross indexed by independent "
+        "moduli; long records N = 64..1000 crossed with the four norms and maxlags in {N//2, N-1, None} (xcorr) and "
+        "min(maxlags, 60) (CORRELATION), long unequal pairs (300/130 ...); input containers (list of float / complex / int, "
+        "int64, int16, int8, uint8 at full range, float32 / complex64 against double), mixed real/complex/integer pairs of "
+        "equal and unequal lengths; default arguments, positional arguments, explicit y = copy of x; all-zero records; "
+        "read-only non-owning views; every call is followed by a bytes/shape comparison of its arguments (non-mutation); "
+        "corrmtx: 5 methods x orders m in [0, N-1], N >= 1; non-trivial = N >= 2")
+
+# kinds that only compare the error kind of a rejected call with the model: no amplitude / stride variants
+NO_VARY = {"corr_err", "xcorr_err", "corrmtx_err"}
 
 NORMS = ["biased", "unbiased", "coeff", None]
 
@@ -32,7 +50,11 @@ def _ref(x, y, k, norm):
     yy = np.zeros(N, dtype=complex)
     xx[: len(x)] = x
     yy[: len(y)] = y
-    s = sum(xx[n + k] * np.conj(yy[n]) for n in range(N - k))
+    if N > 64:
+        # long records: the same lag sum, vectorised (the Python generator below costs O(N) interpreter steps per lag)
+        s = np.sum(xx[k:N] * np.conj(yy[: N - k]))
+    else:
+        s = sum(xx[n + k] * np.conj(yy[n]) for n in range(N - k))
     if norm == "biased":
         return s / N
     if norm == "unbiased":
@@ -48,59 +70,127 @@ def _nm(norm):
     return "none" if norm is None else norm
 
 
+# --------------------------------------------------------------------------------------------------
+# what is handed to the library: the stored samples, or (param "ro": "x" | "y") a read-only view of them that does not own
+# its memory; (param "call") the calling convention; every call is bracketed by a snapshot of its arguments
+
+def _mk(p, k):
+    a = p[k]
+    if p.get("ro") == k:
+        v = np.asarray(a).view()
+        v.flags.writeable = False
+        return v
+    return a
+
+
+def _snap(a):
+    if a is None:
+        return None
+    if isinstance(a, list):
+        return ("list", len(a), [(type(v).__name__, complex(v)) for v in a])
+    a_ = np.asarray(a)
+    return (type(a).__name__, a_.shape, a_.dtype.str, a_.tobytes(), bool(a_.flags.writeable))
+
+
+def _copy_of(a):
+    return list(a) if isinstance(a, list) else np.array(a, copy=True)
+
+
+def _invoke(name, p):
+    """name: "CORRELATION" or "xcorr".  Returns (result, names of the arguments the call modified)."""
+    fn = getattr(_sp(), name)
+    c = p.get("call", "kw")
+    x = _mk(p, "x")
+    y = None if p["auto"] else _mk(p, "y")
+    if c == "ycopy":                       # autocorrelation requested with an explicit second argument equal to the first
+        y = _copy_of(x)
+    before = (_snap(x), _snap(y))
+    if c in ("kw", "ycopy"):
+        if c == "ycopy" and p["maxlags"] is None:
+            out = fn(x, y, norm=p["norm"])
+        else:
+            out = fn(x, y, maxlags=p["maxlags"], norm=p["norm"])
+    elif c == "default":                   # p["norm"] / p["maxlags"] state what the defaults are documented to be
+        dn = "unbiased" if name == "CORRELATION" else "biased"
+        if p["norm"] != dn or p["maxlags"] is not None:
+            raise RuntimeError("harness: a 'default' call case must carry the documented defaults")
+        out = fn(x) if y is None else fn(x, y)
+    elif c == "pos":
+        out = fn(x, y, p["maxlags"], p["norm"])
+    else:
+        raise RuntimeError("harness: unknown call style %r" % (c,))
+    changed = [n for n, a, s in (("x", x, before[0]), ("y", y, before[1])) if a is not None and _snap(a) != s]
+    return out, changed
+
+
+def _second(p):
+    """the second sequence of the definition (the model / reference view of the call)"""
+    return np.asarray(p["x"]) if p["auto"] else np.asarray(p["y"])
+
+
 def impl_corr(p):
-    sp = _sp()
-    r = sp.CORRELATION(p["x"], None if p["auto"] else p["y"], maxlags=p["maxlags"], norm=p["norm"])
+    r, _ = _invoke("CORRELATION", p)
     return [np.asarray(r)]
 
 
 def model_corr(p):
     x = np.asarray(p["x"])
-    y = x if p["auto"] else np.asarray(p["y"])
+    y = _second(p)
     N = max(len(x), len(y))
     ml = N - 1 if p["maxlags"] is None else p["maxlags"]
     return ("Q", proto.request("corr", "Q", [ml, _nm(p["norm"])], [x, y]))
 
 
-def oracle_corr(p):
-    x = np.asarray(p["x"])
-    y = x if p["auto"] else np.asarray(p["y"])
-    N = max(len(x), len(y))
-    ml = N - 1 if p["maxlags"] is None else p["maxlags"]
-    r = impl_corr(p)[0]
-    out = []
-    if len(r) != ml + 1:
-        return ["CORRELATION returned %d lags for maxlags=%s (N=%d)" % (len(r), p["maxlags"], N)]
-    e = np.array([_ref(x, y, k, p["norm"]) for k in range(ml + 1)])
-    if rel(r.astype(complex), e) > 1e-10:
-        out.append("CORRELATION(%s, norm=%s, lens %d/%d, maxlags=%s) differs from the definition: got %s expected %s" % (
-            "auto" if p["auto"] else "cross", p["norm"], len(x), len(y), p["maxlags"], np.round(r[:4], 6), np.round(e[:4], 6)))
-    if p["auto"] and p["norm"] == "biased":
-        r0 = r[0]
-        if abs(np.imag(r0)) > 1e-12 * max(abs(r0), 1e-300) or abs(r0 - np.mean(np.abs(x) ** 2)) > 1e-10 * max(abs(r0), 1e-300):
-            out.append("biased r[0] != mean|x|^2")
-        if np.any(np.abs(r) > abs(r0) * (1 + 1e-10) + 1e-300):
-            out.append("biased |r[k]| > r[0]")
-        from scipy.linalg import toeplitz
-        T = toeplitz(r, np.conj(r))
-        T = (T + T.conj().T) / 2
-        ev = np.linalg.eigvalsh(T)
-        if ev.min() < -1e-9 * max(abs(r0), 1e-300):
-            out.append("biased autocorrelation Toeplitz matrix is not positive semi-definite (min eig %.3e)" % ev.min())
-    if p["auto"] and p["norm"] == "coeff" and abs(r[0] - 1) > 1e-12:
-        out.append("coeff autocorrelation is not 1 at lag 0")
-    return out
+def _oracle_corr(tol):
+    def oracle_corr(p):
+        x = np.asarray(p["x"])
+        y = _second(p)
+        N = max(len(x), len(y))
+        ml = N - 1 if p["maxlags"] is None else p["maxlags"]
+        r, changed = _invoke("CORRELATION", p)
+        r = np.asarray(r)
+        out = []
+        for c in changed:
+            out.append("CORRELATION modified its argument %s (lens %d/%d, maxlags=%s)" % (c, len(x), len(y), p["maxlags"]))
+        if r.ndim != 1 or len(r) != ml + 1:
+            return out + ["CORRELATION returned %s lags for maxlags=%s (N=%d)" % (r.shape, p["maxlags"], N)]
+        e = np.array([_ref(x, y, k, p["norm"]) for k in range(ml + 1)])
+        if rel(r.astype(complex), e) > tol:
+            out.append("CORRELATION(%s, norm=%s, lens %d/%d, maxlags=%s, call=%s, %s/%s) differs from the definition: got %s expected %s" % (
+                "auto" if p["auto"] else "cross", p["norm"], len(x), len(y), p["maxlags"], p.get("call", "kw"),
+                _cls(p["x"]), _cls(p.get("y")), np.round(r[:4], 6), np.round(e[:4], 6)))
+        if not np.any(x) and not np.any(y) and p["norm"] != "coeff" and np.any(r != 0):
+            out.append("CORRELATION of all-zero records is not exactly zero (norm=%s)" % p["norm"])
+        if p["auto"] and p["norm"] == "biased":
+            r0 = r[0]
+            xc = x.astype(complex)
+            if abs(np.imag(r0)) > 1e-12 * max(abs(r0), 1e-300) or abs(r0 - np.mean(np.abs(xc) ** 2)) > max(tol, 1e-10) * max(abs(r0), 1e-300):
+                out.append("biased r[0] != mean|x|^2")
+            if np.any(np.abs(r) > abs(r0) * (1 + max(tol, 1e-10)) + 1e-300):
+                out.append("biased |r[k]| > r[0]")
+            from scipy.linalg import toeplitz
+            T = toeplitz(r, np.conj(r))
+            T = (T + T.conj().T) / 2
+            ev = np.linalg.eigvalsh(T)
+            if ev.min() < -1e-9 * max(abs(r0), 1e-300):
+                out.append("biased autocorrelation Toeplitz matrix is not positive semi-definite (min eig %.3e)" % ev.min())
+        if p["auto"] and p["norm"] == "coeff" and abs(r[0] - 1) > 1e-12:
+            out.append("coeff autocorrelation is not 1 at lag 0")
+        return out
+    return oracle_corr
+
+
+oracle_corr = _oracle_corr(1e-10)
 
 
 def impl_xcorr(p):
-    sp = _sp()
-    r, l = sp.xcorr(p["x"], None if p["auto"] else p["y"], maxlags=p["maxlags"], norm=p["norm"])
+    (r, l), _ = _invoke("xcorr", p)
     return [np.asarray(r), np.asarray(l, dtype=float)]
 
 
 def model_xcorr(p):
     x = np.asarray(p["x"])
-    y = x if p["auto"] else np.asarray(p["y"])
+    y = _second(p)
     N = len(x)
     ml = N - 1 if p["maxlags"] is None else p["maxlags"]
     return ("Q", proto.request("xcorr", "Q", [ml, _nm(p["norm"])], [x, y]))
@@ -114,24 +204,35 @@ def post_xcorr(p, iv, mv):
 
 def oracle_xcorr(p):
     x = np.asarray(p["x"])
-    y = x if p["auto"] else np.asarray(p["y"])
+    y = _second(p)
     N = len(x)
     ml = N - 1 if p["maxlags"] is None else p["maxlags"]
-    r, l = impl_xcorr(p)
+    (r, l), changed = _invoke("xcorr", p)
+    r = np.asarray(r)
     out = []
-    if list(l) != list(range(-ml, ml + 1)) or len(r) != 2 * ml + 1:
-        return ["xcorr lags are not -maxlags..maxlags (N=%d maxlags=%s): %s" % (N, p["maxlags"], l[:5])]
+    for c in changed:
+        out.append("xcorr modified its argument %s (N=%d, maxlags=%s)" % (c, N, p["maxlags"]))
+    if list(l) != list(range(-ml, ml + 1)) or r.ndim != 1 or len(r) != 2 * ml + 1:
+        return out + ["xcorr lags are not -maxlags..maxlags (N=%d maxlags=%s): %s" % (N, p["maxlags"], l[:5])]
     e = np.array([_ref(x, y, k, p["norm"]) if k >= 0 else np.conj(_ref(y, x, -k, p["norm"]))
                   for k in range(-ml, ml + 1)])
     if rel(r.astype(complex), e) > 1e-10:
-        out.append("xcorr(%s, norm=%s, N=%d, maxlags=%s) differs from the definition" % (
-            "auto" if p["auto"] else "cross", p["norm"], N, p["maxlags"]))
-    # consistency with CORRELATION at non-negative lags
+        out.append("xcorr(%s, norm=%s, N=%d, maxlags=%s, call=%s, %s/%s) differs from the definition" % (
+            "auto" if p["auto"] else "cross", p["norm"], N, p["maxlags"], p.get("call", "kw"), _cls(p["x"]), _cls(p.get("y"))))
+    if not np.any(x) and not np.any(y) and p["norm"] != "coeff" and np.any(r != 0):
+        out.append("xcorr of all-zero records is not exactly zero (norm=%s)" % p["norm"])
+    # consistency with CORRELATION at non-negative lags (all of them up to N = 300; the first 61 of a longer record, where
+    # the explicit lag sums of CORRELATION cost O(N * maxlags) interpreter steps)
     sp = _sp()
-    rc = sp.CORRELATION(x, None if p["auto"] else y, maxlags=ml, norm=p["norm"])
-    if rel(r[ml:].astype(complex), np.asarray(rc).astype(complex)) > 1e-10:
+    mc = ml if N <= 300 else min(ml, 60)
+    rc = sp.CORRELATION(p["x"], None if p["auto"] else p["y"], maxlags=mc, norm=p["norm"])
+    if rel(r[ml: ml + mc + 1].astype(complex), np.asarray(rc).astype(complex)) > 1e-10:
         out.append("xcorr and CORRELATION disagree at non-negative lags (norm=%s)" % p["norm"])
     return out
+
+
+_MTX_ROWS = {"autocorrelation": lambda N, m: N + m, "prewindowed": lambda N, m: N, "postwindowed": lambda N, m: N,
+             "covariance": lambda N, m: N - m, "modified": lambda N, m: 2 * (N - m)}
 
 
 def impl_mtx(p):
@@ -146,27 +247,58 @@ def model_mtx(p):
 
 def oracle_mtx(p):
     sp = _sp()
-    x = np.asarray(p["x"])
+    xin = p["x"]
+    x = np.asarray(xin)
     m = p["m"]
     N = len(x)
     out = []
+    before = _snap(xin)
+    X = np.asarray(sp.corrmtx(xin, m, p["method"]))
+    if _snap(xin) != before:
+        out.append("corrmtx modified its argument (method=%s N=%d m=%d)" % (p["method"], N, m))
+    if X.shape != (_MTX_ROWS[p["method"]](N, m), m + 1):
+        return out + ["corrmtx(%s, N=%d, m=%d) has shape %s" % (p["method"], N, m, X.shape)]
+    X = X.astype(complex if np.iscomplexobj(X) else float)        # single-precision input: Gram matrix in doubles
+    xd = x.astype(complex if np.iscomplexobj(x) else float)
+    if m == 0:
+        # order 0: every data matrix is the data column itself (followed by its conjugate for 'modified'): Gram = N * r[0]
+        G0 = (X.conj().T @ X)[0, 0]
+        e0 = float(np.sum(np.abs(xd) ** 2)) * (2 if p["method"] == "modified" else 1)
+        if abs(G0 - e0) > 1e-12 * max(e0, 1e-300):
+            out.append("order-0 '%s' data matrix: Gram %r != %s sum|x|^2 = %r (N=%d)" % (
+                p["method"], G0, "2 *" if p["method"] == "modified" else "", e0, N))
     if p["method"] == "autocorrelation":
-        X = np.asarray(sp.corrmtx(x, m, "autocorrelation"))
-        X = X.astype(complex if np.iscomplexobj(X) else float)        # single-precision input: Gram matrix in doubles
-        r = sp.CORRELATION(x.astype(complex if np.iscomplexobj(x) else float), maxlags=m, norm="biased")
+        r = sp.CORRELATION(xd, maxlags=m, norm="biased")
         from scipy.linalg import toeplitz
         G = X.conj().T @ X
         T = toeplitz(np.conj(r), r)   # Hermitian Toeplitz with first row r
         T2 = toeplitz(r, np.conj(r))
         if rel(G, N * T) > 1e-10 and rel(G, N * T2) > 1e-10:
             out.append("Gram matrix of the 'autocorrelation' data matrix != N * Toeplitz(r_biased) (N=%d m=%d)" % (N, m))
+        # the same against the definition (not the library's CORRELATION): G[i, j] = sum_n conj(x[n-i]) x[n-j] = N r[i-j]
+        re = np.array([_ref(xd, xd, k, "biased") for k in range(m + 1)])
+        if rel(G, N * toeplitz(re, np.conj(re))) > 1e-10:
+            out.append("Gram matrix of the 'autocorrelation' data matrix != N * Toeplitz of the defined biased "
+                       "autocorrelation, entry (i, j) = r[i-j] (N=%d m=%d)" % (N, m))
     return out
+
+
+def _cls(a):
+    """container / dtype class of an input"""
+    if a is None:
+        return "-"
+    if isinstance(a, list):
+        ts = {type(v).__name__ for v in a}
+        return "list[%s]" % ",".join(sorted(ts))
+    return str(np.asarray(a).dtype)
 
 
 def _key(p):
     x = np.asarray(p["x"])
-    return "%s|%s|%s|%s|%s|%d" % (len(x), len(p.get("y", [])), p.get("norm"), p.get("maxlags"), p.get("method"),
-                                  hash(x.tobytes()) & 0xFFFFFF)
+    k = "%s|%s|%s|%s|%s|%d" % (len(x), len(p.get("y", [])), p.get("norm"), p.get("maxlags"), p.get("method"),
+                               hash(x.tobytes()) & 0xFFFFFF)
+    return k + "|%s|%s|%s|%s|%s|%s" % (int(bool(p.get("auto"))), p.get("m"), p.get("call", "kw"), p.get("ro"), _cls(p["x"]),
+                                       _cls(p.get("y")))
 
 
 def _tags(p):
@@ -174,30 +306,107 @@ def _tags(p):
     t = ["complex" if np.iscomplexobj(x) else "real", "norm:%s" % p.get("norm"), "auto" if p.get("auto") else "cross"]
     if "y" in p and not p.get("auto"):
         t.append("len:" + ("equal" if len(p["y"]) == len(x) else ("x-shorter" if len(x) < len(p["y"]) else "y-shorter")))
+        t.append("pair:%s/%s" % (_cls(p["x"]), _cls(p["y"])))
+    else:
+        t.append("in:" + _cls(p["x"]))
+    if p.get("call", "kw") != "kw":
+        t.append("call:" + p["call"])
+    if p.get("ro"):
+        t.append("read-only-view")
+    N = max(len(x), len(p.get("y", [])))
+    if N > 40:
+        t.append("long:%s:%s" % (p.get("norm"), "all-lags" if p.get("maxlags") in (None, N - 1) else
+                                 ("half" if p.get("maxlags") == N // 2 else "few")))
+    if not np.any(x):
+        t.append("zero-energy")
     return t
 
 
+def _mtx_tags(p):
+    return ["mtx:" + p["method"], "dtype:%s" % _cls(p["x"])] + (["mtx:m=0"] if p["m"] == 0 else [])
+
+
+_NT = lambda p: len(p["x"]) >= 2       # noqa: E731
+
 KINDS = {
     "corr": {"impl": impl_corr, "model": model_corr, "oracle": oracle_corr, "rtol": 1e-12, "atol": 1e-300,
-             "key": _key, "tags": _tags, "nontrivial": lambda p: len(p["x"]) >= 2},
+             "key": _key, "tags": _tags, "nontrivial": _NT},
     "xcorr": {"impl": impl_xcorr, "model": model_xcorr, "oracle": oracle_xcorr, "rtol": 1e-12, "atol": 1e-300,
-              "post": post_xcorr, "key": _key, "tags": _tags, "nontrivial": lambda p: len(p["x"]) >= 2},
+              "post": post_xcorr, "key": _key, "tags": _tags, "nontrivial": _NT},
     "corrmtx": {"impl": impl_mtx, "model": model_mtx, "oracle": oracle_mtx, "rtol": 1e-12, "atol": 0.0,
-                "key": _key, "tags": lambda p: ["mtx:" + p["method"], "dtype:%s" % np.asarray(p["x"]).dtype],
-                "nontrivial": lambda p: len(p["x"]) >= 2},
+                "key": _key, "tags": _mtx_tags, "nontrivial": _NT},
+    # records longer than 600 samples: statement against the definition only (see PARTIAL)
+    "corr_o": {"oracle": oracle_corr, "key": _key, "tags": _tags, "nontrivial": _NT},
+    "xcorr_o": {"oracle": oracle_xcorr, "key": _key, "tags": _tags, "nontrivial": _NT},
+    # one input in single precision, the other in doubles (unequal lengths): the lag products are formed in doubles, the
+    # padding of the shorter input keeps its type; compared with the definition on the same sample values at 1e-6
+    "corr_sp": {"impl": impl_corr, "model": model_corr, "oracle": _oracle_corr(1e-6), "rtol": 1e-6, "atol": 1e-300,
+                "key": _key, "tags": _tags, "nontrivial": _NT},
+    # rejected calls: the model must reject them with the same error kind (no statement of the property is evaluated)
+    "corr_err": {"impl": impl_corr, "model": model_corr, "strict_errors": True, "key": _key, "tags": lambda p: ["error-path"],
+                 "nontrivial": lambda p: False},
+    "xcorr_err": {"impl": impl_xcorr, "model": model_xcorr, "post": post_xcorr, "strict_errors": True, "key": _key,
+                  "tags": lambda p: ["error-path"], "nontrivial": lambda p: False},
+    "corrmtx_err": {"impl": impl_mtx, "model": model_mtx, "strict_errors": True, "key": _key,
+                    "tags": lambda p: ["error-path"], "nontrivial": lambda p: False},
 }
+
+DATA = ["noise", "int", "const", "noise", "trend"]
 
 
 def _data(nrng, N, cplx, i):
-    kind = ["noise", "int", "const", "noise", "trend"][i % 5]
+    kind = DATA[i % 5]
     x, _ = gen_data(nrng, N, cplx, kind=kind, exact=True)
     return np.asarray(x, dtype=complex if cplx else float)
 
 
+# input containers / dtypes other than float64 / complex128 ndarrays (all integer valued: exact in every representation)
+CONT = ["list", "listint", "int64", "int16", "int8", "uint8", "listcplx", "int32"]
+
+
+def _contain(nrng, N, cls):
+    """N integer-valued samples (never all zero) held in the container class cls; narrow integer types use their full
+    range, so that a product of two samples does not fit the sample type"""
+    if cls == "listcplx":
+        x, _ = gen_data(nrng, N, True, kind="list")
+        return as_input(x, "list")
+    if cls == "list":
+        x, _ = gen_data(nrng, N, False, kind="list")
+        return as_input(x, "list")
+    if cls == "listint":
+        x, _ = gen_data(nrng, N, False, kind="list")
+        return [int(v) for v in x]
+    if cls == "int64":
+        x, _ = gen_data(nrng, N, False, kind="intdtype")
+        return np.asarray(x, dtype=np.int64)
+    dt = {"int16": np.int16, "int8": np.int8, "uint8": np.uint8, "int32": np.int32}[cls]
+    lo, hi = (np.iinfo(dt).min, np.iinfo(dt).max) if dt is not np.int32 else (-100000, 100000)
+    x = nrng.integers(lo, hi + 1, N)
+    if N > 0:
+        x[int(nrng.integers(0, N))] = hi if int(nrng.integers(0, 2)) else (lo if lo else hi)     # an extreme value is present
+    return x.astype(dt)
+
+
+def _pick_ml(nrng, N):
+    return [0, N - 1, N // 2, None, int(nrng.integers(0, N))][int(nrng.integers(0, 5))]
+
+
 KINDS["single"] = single.kind("C09")
 
+
 def gen(rng, nrng, tier):
+    for kind, p in _gen(rng, nrng, tier):
+        y = p.get("y") if isinstance(p, dict) else None
+        if isinstance(y, np.ndarray) and y.dtype.itemsize == 1 and "variant" not in p:
+            # the runner's strided variant interleaves the samples with the filler 7250, which an 8-bit type cannot hold:
+            # these pairs are run as generated only
+            p["variant"] = "as-generated"
+        yield (kind, p)
+
+
+def _gen(rng, nrng, tier):
     yield from single.gen("C09", nrng, tier)
+    thorough = tier == "thorough"
     n = 300 if tier == "quick" else 5000
     maxN = 16 if tier == "quick" else 40
     for i in range(n):
@@ -208,8 +417,9 @@ def gen(rng, nrng, tier):
             ny = nx
         else:
             ny = nx if i % 3 == 1 else int(nrng.integers(1, maxN + 1))
-        x = _data(nrng, nx, cplx, i)
-        y = _data(nrng, ny, cplx, i + 1)
+        # data class by i // 5: independent of the maxlags choice (i % 5), of the norm (i % 4) and of auto / cross (i % 3)
+        x = _data(nrng, nx, cplx, i // 5)
+        y = _data(nrng, ny, cplx, i // 5 + 1 + (i % 3))
         N = max(nx, ny)
         norm = NORMS[i % 4]
         if norm == "coeff" and not auto:
@@ -237,6 +447,35 @@ def gen(rng, nrng, tier):
                 yield ("xcorr", q)
                 if ml is not None and ml <= 40:
                     yield ("corr", dict(q))
+    # long records crossed with the four norms and the lag ranges {N//2, N-1, None}: a size-gated fast path (dot products,
+    # FFT correlation) with a wrong N-k divisor, scaling or padding shows only here.  xcorr over the whole range, CORRELATION
+    # over min(maxlags, 60) lags.  Exact model up to N = 600, definition only above.
+    bigN = [64, 129, 256, 257, 300, 512, 513, 600, 1000] if thorough else [256, 300, 513, 1000]
+    o = int(nrng.integers(0, 4))
+    for j, N in enumerate(bigN):
+        for c in range(12):
+            norm = NORMS[c // 3]
+            ml = [N // 2, N - 1, None][c % 3]
+            autos = [bool(((c // 2) + j + (o >> 1)) % 2)]
+            for cplx in (bool((c + j + o) % 2),):       # o is redrawn in every round of the thorough tier
+                x = _data(nrng, N, cplx, int(nrng.integers(0, 5)))
+                y = _data(nrng, N, cplx, int(nrng.integers(0, 5)))
+                for auto in ([True] if norm == "coeff" else autos):
+                    q = {"x": x, "auto": auto, "norm": norm, "maxlags": ml}
+                    if not auto:
+                        q["y"] = y
+                    yield ("xcorr" if N <= 600 else "xcorr_o", q)
+                    q2 = dict(q)
+                    q2["maxlags"] = min(N - 1 if ml is None else ml, 60)
+                    yield ("corr" if N <= 600 else "corr_o", q2)
+    # long records of unequal lengths (zero padding of the shorter one), one complex and one real, both orders
+    lpairs = [(300, 130), (257, 256), (512, 100), (40, 400)] if thorough else [(300, 130)]
+    for j, (na, nb) in enumerate(lpairs):
+        a = _data(nrng, na, True, int(nrng.integers(0, 5)))
+        b = _data(nrng, nb, False, int(nrng.integers(0, 5)))
+        for norm in ("biased", "unbiased", None):
+            for u, v in ((a, b), (b, a)):
+                yield ("corr", {"x": u, "y": v, "auto": False, "norm": norm, "maxlags": 50 if j == 0 else min(na, nb) // 2})
     # mixed pairs: one sequence real (or integer dtype), the other complex, unequal lengths both ways
     for i in range(24 if tier == "quick" else 300):
         nx = int(nrng.integers(1, maxN + 1))
@@ -252,13 +491,141 @@ def gen(rng, nrng, tier):
         N = max(nx, ny)
         yield ("corr", {"x": a, "y": b, "auto": False, "norm": ["biased", "unbiased", None][i % 3],
                         "maxlags": [0, N - 1, N // 2, None][i % 4]})
+    # mixed pairs of EQUAL length (real / complex, integer / complex, integer / float), both orders: CORRELATION and xcorr
+    for i in range(72 if tier == "quick" else 360):
+        N = int(nrng.integers(1, maxN + 1))
+        w = i % 3
+        if w == 0:
+            a, b = _data(nrng, N, False, i // 6), _data(nrng, N, True, i // 6 + 2)
+        elif w == 1:
+            a, b = _contain(nrng, N, CONT[2 + (i // 3) % 4]), _data(nrng, N, True, i // 6)
+        else:
+            a, b = _contain(nrng, N, CONT[2 + (i // 3) % 4]), _data(nrng, N, False, i // 6)
+        if (i // 12) % 2:       # with t = i // 3: integer class t % 4, norm (t // 2) % 3, order (t // 4) % 2 cover all 24 combinations
+            a, b = b, a
+        p = {"x": a, "y": b, "auto": False, "norm": ["biased", "unbiased", None][(i // 6) % 3], "maxlags": _pick_ml(nrng, N)}
+        yield ("corr", p)
+        yield ("xcorr", dict(p))
+    # input containers and dtypes: lists of float / int / complex, integer arrays of every width at full range, as the
+    # only input (autocorrelation), as either input of a pair, and as the corrmtx record
     methods = ["autocorrelation", "prewindowed", "postwindowed", "covariance", "modified"]
+    for i in range(96 if tier == "quick" else 480):
+        cls = CONT[i % 8]
+        fn = ("corr", "xcorr", "corrmtx")[(i // 8) % 3]
+        N = int(nrng.integers(1, maxN + 1))
+        a = _contain(nrng, N, cls)
+        if fn == "corrmtx":
+            yield ("corrmtx", {"x": a, "m": int(nrng.integers(0, N)), "method": methods[int(nrng.integers(0, 5))]})
+            continue
+        auto = bool(nrng.integers(0, 2))
+        norm = NORMS[int(nrng.integers(0, 4))]
+        if norm == "coeff" and not auto:
+            norm = NORMS[int(nrng.integers(0, 2))]
+        p = {"x": a, "auto": auto, "norm": norm}
+        Nn = N
+        if not auto:
+            nb = N if (fn == "xcorr" or nrng.integers(0, 2)) else int(nrng.integers(1, maxN + 1))
+            w = int(nrng.integers(0, 3))
+            b = _contain(nrng, nb, CONT[int(nrng.integers(0, 8))]) if w == 0 else _data(nrng, nb, w == 2, int(nrng.integers(0, 5)))
+            if nrng.integers(0, 2):
+                a, b = b, a
+            p["x"], p["y"] = a, b
+            Nn = max(N, nb)
+        p["maxlags"] = _pick_ml(nrng, Nn)
+        yield (fn, p)
+    # single precision against double precision, UNEQUAL lengths (the padded input keeps its type): 1e-6
+    for i in range(12 if tier == "quick" else 120):
+        nx = int(nrng.integers(1, maxN + 1))
+        ny = int(nrng.integers(1, maxN + 1))
+        if nx == ny:
+            ny = nx + 1 + i % 3
+        cs, cd = bool(i % 2), bool((i // 2) % 2)
+        s_ = _data(nrng, nx, cs, int(nrng.integers(0, 5))).astype(np.complex64 if cs else np.float32)
+        d_ = _data(nrng, ny, cd, int(nrng.integers(0, 5)))
+        a, b = (s_, d_) if (i // 4) % 2 else (d_, s_)
+        yield ("corr_sp", {"x": a, "y": b, "auto": False, "norm": ["biased", "unbiased", None][i % 3],
+                           "maxlags": _pick_ml(nrng, max(nx, ny))})
+    # calling conventions: documented defaults (CORRELATION: unbiased, all lags 0..N-1; xcorr: biased, lags -(N-1)..N-1),
+    # positional maxlags / norm, and the autocorrelation requested with an explicit second argument equal to the first
+    for i in range(48 if tier == "quick" else 480):
+        call = ["default", "pos", "ycopy"][i % 3]
+        fn = ("corr", "xcorr")[(i // 3) % 2]
+        cplx = bool(nrng.integers(0, 2))
+        N = int(nrng.integers(1, maxN + 1))
+        x = _data(nrng, N, cplx, int(nrng.integers(0, 5)))
+        auto = True if call == "ycopy" else bool((i // 6) % 2)
+        p = {"x": x, "auto": auto, "call": call}
+        Nn = N
+        if not auto:
+            ny = N if (fn == "xcorr" or (i // 12) % 2) else int(nrng.integers(1, maxN + 1))
+            p["y"] = _data(nrng, ny, bool(nrng.integers(0, 2)), int(nrng.integers(0, 5)))
+            Nn = max(N, ny)
+        if call == "default":
+            p["norm"], p["maxlags"] = ("unbiased" if fn == "corr" else "biased"), None
+        elif call == "pos":
+            p["norm"] = NORMS[int(nrng.integers(0, 4))]
+            if p["norm"] == "coeff" and not auto:
+                p["norm"] = None
+            p["maxlags"] = min(3, Nn - 1) if (i // 6) % 3 == 0 else _pick_ml(nrng, Nn)
+        else:
+            p["norm"] = "coeff" if (i // 6) % 2 == 0 else NORMS[int(nrng.integers(0, 4))]
+            p["maxlags"] = None if (i // 12) % 2 == 0 else _pick_ml(nrng, Nn)
+        yield (fn, p)
+    # all-zero records: the estimate is exactly zero for the three norms that do not divide by the energy
+    for cplx in (False, True):
+        z = np.zeros(5, dtype=complex if cplx else float)
+        w = _data(nrng, 5, cplx, 0)
+        for norm in ("biased", None, "unbiased"):
+            for ml in (None, 2):
+                for fn in ("corr", "xcorr"):
+                    yield (fn, {"x": z, "auto": True, "norm": norm, "maxlags": ml})
+                    yield (fn, {"x": z, "y": z.copy(), "auto": False, "norm": norm, "maxlags": ml})
+            yield ("corr", {"x": z, "y": w, "auto": False, "norm": norm, "maxlags": None})
+            yield ("xcorr", {"x": w, "y": z, "auto": False, "norm": norm, "maxlags": 3})
+    # read-only views that do not own their memory (the shorter input, which the code pads; also the longer / only one)
+    for i in range(12 if tier == "quick" else 120):
+        cplx = bool(nrng.integers(0, 2))
+        nx = int(nrng.integers(1, maxN + 1))
+        ny = int(nrng.integers(1, maxN + 1))
+        if nx == ny and i % 4 != 3:
+            ny = nx + 1 + i % 3
+        x = _data(nrng, nx, cplx, int(nrng.integers(0, 5)))
+        y = _data(nrng, ny, bool(nrng.integers(0, 2)), int(nrng.integers(0, 5)))
+        norm = ["biased", "unbiased", None][i % 3]
+        if i % 4 == 3:
+            yield ("xcorr" if (i // 4) % 2 else "corr", {"x": x, "auto": True, "norm": norm, "maxlags": _pick_ml(nrng, nx), "ro": "x"})
+        else:
+            short = "x" if nx < ny else "y"
+            other = "y" if short == "x" else "x"
+            yield ("corr", {"x": x, "y": y, "auto": False, "norm": norm, "maxlags": _pick_ml(nrng, max(nx, ny)),
+                            "ro": short if i % 4 != 2 else other})
+    # rejected calls (error kind compared with the model; see PARTIAL)
+    for i in range(6 if tier == "quick" else 30):
+        cplx = bool(nrng.integers(0, 2))
+        N = int(nrng.integers(1, maxN + 1))
+        x = _data(nrng, N, cplx, i)
+        y = _data(nrng, N + 1 + i % 3, cplx, i + 1)
+        yield ("corr_err", {"x": x, "auto": True, "norm": NORMS[i % 4], "maxlags": N + (i % 3)})
+        yield ("corr_err", {"x": x, "y": y, "auto": False, "norm": "biased", "maxlags": len(y) + (i % 2)})
+        yield ("xcorr_err", {"x": x, "y": y, "auto": False, "norm": [None, "biased", "unbiased"][i % 3],
+                             "maxlags": [None, 0, N - 1][(i // 3) % 3]})
+        yield ("xcorr_err", {"x": x, "auto": True, "norm": NORMS[i % 4], "maxlags": N + 1 + i % 2})
+        yield ("corrmtx_err", {"x": _data(nrng, N + 1, cplx, i), "m": int(nrng.integers(0, N + 1)),
+                               "method": ["burg", "Autocorrelation", "cov", "auto", "modified_covariance", "none"][i % 6]})
     nm = 100 if tier == "quick" else 1500
     for i in range(nm):
         cplx = bool(nrng.integers(0, 2))
         N = int(nrng.integers(2, maxN + 1))
         m = int(nrng.integers(1, N))
-        x = _data(nrng, N, cplx, i)
+        x = _data(nrng, N, cplx, i // 5)             # data class independent of the method (i % 5)
         if (i // 5) % 4 == 3:
             x = x.astype(np.complex64 if cplx else np.float32)    # single precision (the dyadic samples are exact in it)
         yield ("corrmtx", {"x": x, "m": m, "method": methods[i % 5]})
+    # order 0 and the one-sample record, every method
+    for N in (1, 2, 6):
+        for cplx in (False, True):
+            x = _data(nrng, N, cplx, int(nrng.integers(0, 5)))
+            for j, method in enumerate(methods):
+                yield ("corrmtx", {"x": x, "m": 0, "method": method})
+                if N == 6 and cplx:
+                    yield ("corrmtx", {"x": _contain(nrng, N, CONT[j]), "m": 0, "method": method})
